@@ -166,9 +166,9 @@ def build_drivers(scratch, pkg="./drivers", overlay=None, tags="verif", name="dr
 
 
 def run_driver(scratch, binary, test, seed, tier, out, extra_env=None, timeout=None, replay=None):
-    timeout = timeout or (900 if tier == 'quick' else 5400)
+    timeout = timeout or (420 if tier == 'quick' else 5400)
     env = goenv()
-    env.update({"VERIF_SEED": str(seed), "VERIF_TIER": tier, "VERIF_OUT": out, "GOLOG_LOG_LEVEL": "fatal",
+    env.update({"VERIF_SEED": str(seed), "VERIF_TIER": tier, "VERIF_OUT": out, "GOLOG_LOG_LEVEL": "error",
                 "VERIF_SUMMARY": out + ".summary.json"})
     if replay:
         env["VERIF_REPLAY"] = replay
